@@ -49,8 +49,8 @@ func Create(engine engine.Engine, owner key.TargetID, lc info.LightCone) {
 	}
 
 	// TODO: recheck when multiple waves support is added
-	engine.Events().BattleStart.Subscribe(func(event event.BattleStart) {
-		for char := range event.CharInfo {
+	engine.Events().BattleStart.Subscribe(func(_ event.BattleStart) {
+		for _, char := range engine.Characters() {
 			engine.AddModifier(char, dmgmod)
 		}
 
